@@ -25,7 +25,7 @@ RULE = (
     "drops the connection, and what the application sends from inside on_state_change(ACTIVE) never overtakes the endpoint's own Logon (a Logout as the first frame of a connection produces no callback other than the disconnect); refused sends raise FIXConnectionError, write nothing, consume no number, leave no journal row; wrong "
     "BeginString frames have no effect; CompID / MsgSeqNum defects never reach on_message, never advance next_num_in, leave the "
     "endpoint disconnected (with a Logout carrying Text when the CompIDs were right); a disconnect is reported exactly once and "
-    "nothing is emitted or called back afterwards; an acceptor whose first frame is a Logon it cannot answer as it stands (EncryptMethod and / or HeartBtInt absent) x one more frame of every class numbered at / above the expectation x send attempts: unless it answered with its own Logon, nothing is delivered, acted upon or counted and sends other than Logon / Logout are refused; the same three clauses under interleavings (the controlled scheduler of C14: the peer's EOF, a reset while senders wait in drain, or the application's disconnect() arrive while other tasks are suspended in drain or in a hook). Non-trivial = defect != none or pre-logon state; the product is enumerated completely."
+    "nothing is emitted or called back afterwards; an acceptor whose first frame is a Logon it cannot answer as it stands (EncryptMethod and / or HeartBtInt absent) x one more frame of every class numbered at / above the expectation x send attempts: unless it answered with its own Logon, nothing is delivered, acted upon or counted and sends other than Logon / Logout are refused; one read carrying the frame that ends the connection followed by complete valid frames, then the object's next connection on which the new peer sends a single newline: nothing of the stale frames is delivered, answered or counted; the same three clauses under interleavings (the controlled scheduler of C14: the peer's EOF, a reset while senders wait in drain, or the application's disconnect() arrive while other tasks are suspended in drain or in a hook). Non-trivial = defect != none or pre-logon state; the product is enumerated completely."
 )
 ASSUMPTIONS = [
     "FREE: whether a Logout is written for wrong/missing CompIDs; too-low numbers while a resend is awaited, on SequenceReset or with PossDupFlag=Y; "
